@@ -87,6 +87,25 @@ func ephemeralDoor(c *vf.Ctx, x *chain.Explorer, w *chain.World, path []string) 
 			}
 		}
 	}
+	// the genuine in-block parent (right id, right contents) but with an ASSIGNED leaf index: positions at and beyond the
+	// accumulator size do not exist, positions inside it belong to other elements; with an empty, a plausible and an
+	// over-long proof. Only the unassigned-index sentinel denotes an in-block parent.
+	nl := w.CS.Elements.NumLeaves
+	for j, out := range t1.SiacoinOutputs {
+		for _, li := range []uint64{0, nl - 1, nl, nl + 1, nl + uint64(j) + 2, 1 << 40, types.UnassignedLeafIndex - 1} {
+			for _, plen := range []int{0, 1, 3, 64} {
+				parent := types.SiacoinElement{ID: t1.SiacoinOutputID(txid, j), StateElement: types.StateElement{LeafIndex: li, MerkleProof: make([]types.Hash256, plen)}, SiacoinOutput: out}
+				t2 := types.V2Transaction{SiacoinInputs: []types.V2SiacoinInput{{Parent: parent}}, SiacoinOutputs: []types.SiacoinOutput{{Value: out.Value, Address: k.Addr(chain.AddrV2b)}}}
+				c.Distinct(w.Spec.Name, "door4-leafindex", j, li, plen)
+				if try(t2) {
+					x.Violate("membership-accepted|door4|siacoin|assigned leaf index", fmt.Sprintf("in-block siacoin parent presented with the assigned leaf index %d (accumulator has %d leaves) and a %d-hash proof ACCEPTED at height %d", li, nl, plen, h),
+						append(append([]string(nil), path...), fmt.Sprintf("mutation:door4:leafindex=%d,proof=%d", li, plen)))
+				} else {
+					c.Count("door4_mutant_rejected", 1)
+				}
+			}
+		}
+	}
 	for j, out := range t1.SiafundOutputs {
 		for _, cr := range ids {
 			parent := types.SiafundElement{ID: types.SiafundOutputID(cr.id), StateElement: types.StateElement{LeafIndex: types.UnassignedLeafIndex}, SiafundOutput: out, ClaimStart: w.CS.SiafundTaxRevenue}
